@@ -7,6 +7,6 @@ rsync -a --exclude=.git /repo/ $t/
 (cd $t && patch -p1 -s -F3 --no-backup-if-mismatch -i /verif/benign/$n/patch.diff) || { rm -rf $t; exit 3; }
 [ $# -eq 0 ] && set -- C01 C02 C03 C04 C05 C06 C07 C08 C09 C10 C11 C12 C13 C14 C15 C16 C17 C18 C19 C20
 for id in "$@"; do
-  CRS_NOSELFTEST=1 /verif/bin/crscheck -property $id -repo $t $CRS_EXTRA 2>&1 | sed "s#$t/##g" | grep -v "^  discharged" | grep "\] \|ERROR\|FLATTEN\|panic\|^C[0-9][0-9] \|sanity\|Error" | cut -c1-${CRS_W:-300}
+  CRS_NOSELFTEST=1 ${CRS_BIN:-/verif/bin/crscheck} -property $id -repo $t $CRS_EXTRA 2>&1 | sed "s#$t/##g" | grep -v "^  discharged" | grep "\] \|ERROR\|FLATTEN\|panic\|^C[0-9][0-9] \|sanity\|Error" | cut -c1-${CRS_W:-300}
 done
 rm -rf $t
